@@ -194,4 +194,5 @@ func (r *rng) bytesN(n int) []byte {
 	return b
 }
 func (r *rng) fork() *rng { return newRng(r.u64()) }
+func (r *rng) pickByte(bs []byte) byte { return bs[r.intn(len(bs))] }
 func (r *rng) pick3(a, b, c int) int { return []int{a, b, c}[r.intn(3)] }
